@@ -115,6 +115,14 @@ def curated_programs() -> list[dict]:
                          "leaf": {"units": {"r": 1}, "vers": [_t("leaf", 1)]},
                          "bad": {"units": {"r": 1}, "vers": [_t("fail"), _t("leaf", 3)]}},
                "plan": [RUN]})
+    # 10. a job that names an unknown executor: its units are consumed and must come back when it is
+    #     rejected before reaching any executor; dry run first
+    ps.append({"ns": "cur10", "res": ["r"], "limits": {"r": 1}, "root": {"t": "main", "arg": 0},
+               "tasks": {"main": {"units": {}, "vers": [_t("calls", 0, [_c("leaf", "c", 1), _c("ghost", "c", 2),
+                                                                     _c("leaf", "c", 3)])]},
+                         "leaf": {"units": {"r": 1}, "vers": [_t("leaf", 1)]},
+                         "ghost": {"units": {"r": 1}, "vers": [_t("noexec", 5), _t("leaf", 5)]}},
+               "plan": [DRY, RUN, {"k": "edit", "t": "ghost"}, RUN]})
     return [progen.normalize(p) for p in ps]
 
 
@@ -540,3 +548,57 @@ def replay_record(ctx: Ctx, rec: dict, on: list[str]) -> None:
         if not acc:
             ctx.violation(f"replayed execution rejected by clause '{why}' at event {pos}", r)
     h.close()
+
+
+# ------------------------------------------------------------------------------------------------
+# the repository's own tests as a trace source (DESIGN 2.3g)
+# ------------------------------------------------------------------------------------------------
+def suite_test_traces(ctx: Ctx, modules: list[str], timeout: int = 1500) -> tuple[list[dict], dict]:
+    """Run the given test modules of /repo with the recording plugin; returns (contract traces, stats)."""
+    import subprocess
+    import sys
+
+    from .core import REPO, VERIF
+
+    out = ctx.tmp("suite_traces.jsonl")
+    if out.exists():
+        out.unlink()
+    env = dict(os.environ)
+    env["VERIF_TRACE_OUT"] = str(out)
+    env["PYTHONPATH"] = os.pathsep.join([str(REPO), str(VERIF)])
+    cmd = [sys.executable, "-m", "pytest", "-q", "-p", "no:cacheprovider", "-p", "harness.pytest_trace",
+           "--timeout=600", "-x", "-q"] + [f"redun/tests/{m}" for m in modules]
+    p = subprocess.run(cmd, cwd=str(REPO), env=env, capture_output=True, text=True, timeout=timeout)
+    stats = {"pytest_rc": p.returncode, "modules": modules, "runs": 0, "skipped": 0, "judged": 0}
+    traces = []
+    if not out.exists():
+        raise MachineryError(f"recording plugin produced no traces (rc={p.returncode}):\n{p.stdout[-1500:]}{p.stderr[-800:]}")
+    for line in out.read_text().splitlines():
+        r = json.loads(line)
+        stats["runs"] += 1
+        if r.get("skip") or r["entry"] != "run":
+            stats["skipped"] += 1
+            continue
+        names = sorted(set(r["limits"]) | {"_"} | {k for e in r["events"] if e["ev"] == "submit" for k in e["units"]}
+                       | set(r["used_at_end"]) | set(r["used_at_start"]))
+        lim = {n: int(r["limits"].get(n, 1)) for n in names}
+        keyids: dict = {}
+        evs = []
+        for e in r["events"]:
+            if e["ev"] == "submit":
+                kid = keyids.setdefault((e["task_hash"], e["args_hash"], e["ctx"]), len(keyids) + 1)
+                evs.append({"ev": "submit", "job": e["job"], "key": kid,
+                            "optout": 1 if ("NONE" in e["scope"] or not e["prov"]) else 0,
+                            "units": {n: int(e["units"].get(n, 0)) for n in names}})
+            elif e["ev"] == "finish":
+                evs.append({"ev": "finish", "job": e["job"], "ok": 1 if e["ok"] else 0, "etype": "", "msg": ""})
+        # units a previous run on the same Scheduler left behind are not this run's business
+        delta = {n: max(0, int(r["used_at_end"].get(n, 0)) - int(r["used_at_start"].get(n, 0))) for n in names}
+        evs.append({"ev": "state", "used": delta})
+        outcome = "value" if r["outcome"] == "value" else "error"
+        evs.append({"ev": "end", "outcome": outcome, "val": 0, "etype": r["outcome"], "msg": ""})
+        traces.append({"hdr": {"limits": lim, "mode": r["mode"], "expect": {"res": "none", "v": 0},
+                               "prevdry": {"res": "none", "val": 0}, "group": "", "digest": "",
+                               "test": r["test"]}, "evs": evs})
+        stats["judged"] += 1
+    return traces, stats
